@@ -55,8 +55,10 @@ def main(tier, seed):
     try:
         cases = gen_cases(r, tier)
         # malformed stream: node with a hash that is not 32 bytes must be refused by both encoders
+        malformed = set()
         for L in (0, 31, 33):
             cases.append(("node", "5.6.%s" % rnd_bytes(r, L)))
+            malformed.add(cases[-1])
         max_prefix_cases = 400 if tier == "quick" else 4000
         nprefix = 0
         for k, (ty, fields) in enumerate(cases):
@@ -66,8 +68,12 @@ def main(tier, seed):
             res.add_case(sig, True, sample=dict(cmd="enc %s %s" % (ty, fields[:80]), impl=ia[:80]) if k % 97 == 0 else None)
             if ia.startswith("err"):
                 res.count("enc_err")
-                if not ma.startswith("err"):
-                    pass  # recorded as disagreement by Pair
+                if (ty, fields) not in malformed:
+                    # every value of a message type (32-byte hashes) has an encoding of exactly the announced size
+                    res.violations.append(dict(
+                        key="enc-refused", what="encoding a valid %s value failed (%s): the announced size does not fit "
+                        "what encode writes, or the encoder refuses a valid value" % (ty, ia[:60]),
+                        replay=dict(cmd="enc %s %s" % (ty, fields), impl=ia, reference=ma[:200])))
                 continue
             if klass(ia) == "crash":
                 res.violations.append(dict(key="enc-crash", what="encode crashed: " + ia[:120],
